@@ -54,7 +54,7 @@ def check(tier, seed, replay=None):
         plan = [("Mixed1.cfg", 500, None), ("Mixed2.cfg", 700, None),
                 ("SimMixed3.cfg", 500 if tier == "quick" else 8000, (3 if tier == "quick" else 40, 9))]
         if tier == "thorough":
-            plan = [(c, n * 15 if s is None else n, s) for c, n, s in plan]
+            plan = [(c, n * 80 if s is None else n * 4, (s[0] * 4, s[1]) if s else s) for c, n, s in plan]
         for cfg, n, sim in plan:
             cs, m = lpcases.family(cfg, "quick", seed, n, sim)
             meta[cfg[:-4]] = m
